@@ -1,7 +1,7 @@
 """C18 -- results do not depend on how data and labels are represented (partial by nature; differential)."""
 import coqfmt as cf
 
-RULE = ("cases = datasets (6-8 rows, 2-3 classes incl. integer labels with a gap such as {0,2} / {0,2,5}) each scored by "
+RULE = ("cases = datasets (6-8 rows, 2-3 classes; half of the neighbor cases with features of magnitude 2^27; incl. integer labels with a gap such as {0,2} / {0,2,5}) each scored by "
         "every method (neighbor K=1, bruteforce, montecarlo) in up to 14 representations: features ndarray / DataFrame "
         "(default and shuffled index labels); labels ndarray / Series (default index, shuffled index labels, the "
         "frame's index) as int / float / str (sort orders agreeing); a stateless FunctionTransformer pipeline instead "
@@ -24,7 +24,10 @@ def gen(rng, tier):
         # the neighbor method is cheap: two thirds of the cases; labels with a gap in two thirds of those
         method = ["neighbor", "bruteforce", "neighbor", "montecarlo", "neighbor", "neighbor"][k % 6]
         cases.append({"data_seed": rng.randrange(1 << 20), "n": rng.choice([6, 7]) if method == "neighbor" else 6,
-                      "classes": rng.choice([2, 2, 3]), "gap": k % 3 != 1, "method": method, "model": rng.choice(["knn", "logreg"])})
+                      "classes": rng.choice([2, 2, 3]), "gap": k % 3 != 1, "method": method, "model": rng.choice(["knn", "logreg"]),
+                      # half of the neighbor cases: features of timestamp-like magnitude (2^27 + small), whose neighbour order
+                      # needs more than single precision -- every representation must still be handled in double precision
+                      "big": method == "neighbor" and k % 4 < 2})
     return cases
 
 
@@ -39,6 +42,8 @@ def run_impl(c):
     from datascope.importance.utility import SklearnModelAccuracy
     from props import rtcommon
     X, y, Xv, yv = rtcommon.dataset(c["data_seed"], n=c["n"], classes=c["classes"], gap=c["gap"])
+    if c.get("big"):
+        X, Xv = X + 2.0 ** 27, Xv + 2.0 ** 27
     n = len(y)
     r = np.random.RandomState(c["data_seed"] + 1)
     perm_labels = r.permutation(n)            # shuffled index LABELS (positions unchanged)
@@ -119,7 +124,7 @@ def nontrivial(c, o):
 def distribution(cases, outs):
     from collections import Counter
     st = Counter((r[0], r[1]) for o in outs if isinstance(o, dict) and "reps" in o for r in o["reps"])
-    return {"methods": dict(Counter(c["method"] for c in cases)), "gap_labels": sum(1 for c in cases if c["gap"]),
+    return {"methods": dict(Counter(c["method"] for c in cases)), "gap_labels": sum(1 for c in cases if c["gap"]), "timestamp_magnitude_features": sum(1 for c in cases if c.get("big")),
             "representation_outcomes": {"%s: %s" % k: v for k, v in sorted(st.items())},
             "exceptions": dict(Counter(o["exc"] for o in outs if isinstance(o, dict) and "exc" in o))}
 
